@@ -160,6 +160,8 @@ pub(crate) struct NdDev {
     pub track_hi: u64,
     /// single-fault mode: the device call with this (concrete) index fails (usize::MAX = none)
     pub fault_at: usize,
+    /// call logging can be switched off (harnesses that only look at results: symbolic log indices are costly)
+    pub log_on: bool,
 }
 
 impl NdDev {
@@ -188,6 +190,7 @@ impl NdDev {
             track_lo: 0,
             track_hi: u64::MAX,
             fault_at: usize::MAX,
+            log_on: true,
         }
     }
     pub fn faulty() -> Self {
@@ -199,6 +202,7 @@ impl NdDev {
     pub fn fault_at(k: usize) -> Self {
         let mut d = Self::new();
         d.fault_at = k;
+        d.log_on = false;
         d
     }
     pub fn read_only() -> Self {
@@ -207,6 +211,9 @@ impl NdDev {
         d
     }
     fn push(&mut self, op: Op) {
+        if !self.log_on {
+            return;
+        }
         if self.nlog < LOG_N {
             self.log[self.nlog] = op;
             self.nlog += 1;
@@ -419,4 +426,86 @@ macro_rules! for_each_fault_index {
             _ => $f(usize::MAX),
         }
     }};
+}
+
+
+/// In-memory table with symbolic content whose k-th device call (k concrete) fails with a symbolic tag:
+/// the environment of the exhaustive single-fault obligations on the table code.
+pub(crate) struct FaultMem<const N: usize> {
+    pub data: [u8; N],
+    pub pos: usize,
+    pub ncalls: usize,
+    pub fault_at: usize,
+    pub fault_fired: bool,
+    pub first_tag: u8,
+    pub budget: usize,
+}
+
+impl<const N: usize> FaultMem<N> {
+    pub fn any(fault_at: usize, budget: usize) -> Self {
+        FaultMem { data: kani::any(), pos: 0, ncalls: 0, fault_at, fault_fired: false, first_tag: 0, budget }
+    }
+    fn call(&mut self) -> Result<(), DevErr> {
+        self.ncalls += 1;
+        assert!(self.ncalls <= self.budget, "device-call budget exceeded: the operation does not terminate");
+        if self.ncalls - 1 == self.fault_at {
+            let tag: u8 = kani::any();
+            kani::assume(tag != EOF_TAG && tag != WZ_TAG);
+            self.fault_fired = true;
+            self.first_tag = tag;
+            return Err(DevErr { tag, interrupted: false });
+        }
+        Ok(())
+    }
+}
+
+impl<const N: usize> IoBase for FaultMem<N> {
+    type Error = DevErr;
+}
+
+impl<const N: usize> Read for FaultMem<N> {
+    fn read(&mut self, buf: &mut [u8]) -> Result<usize, DevErr> {
+        self.call()?;
+        let n = buf.len();
+        kani::assume(self.pos + n <= N);
+        let mut i = 0;
+        while i < buf.len() {
+            buf[i] = self.data[self.pos + i];
+            i += 1;
+        }
+        self.pos += n;
+        Ok(n)
+    }
+}
+
+impl<const N: usize> Write for FaultMem<N> {
+    fn write(&mut self, buf: &[u8]) -> Result<usize, DevErr> {
+        self.call()?;
+        let n = buf.len();
+        kani::assume(self.pos + n <= N);
+        let mut i = 0;
+        while i < buf.len() {
+            self.data[self.pos + i] = buf[i];
+            i += 1;
+        }
+        self.pos += n;
+        Ok(n)
+    }
+    fn flush(&mut self) -> Result<(), DevErr> {
+        self.call()
+    }
+}
+
+impl<const N: usize> Seek for FaultMem<N> {
+    fn seek(&mut self, pos: SeekFrom) -> Result<u64, DevErr> {
+        self.call()?;
+        let np: i128 = match pos {
+            SeekFrom::Start(x) => x as i128,
+            SeekFrom::Current(x) => self.pos as i128 + x as i128,
+            SeekFrom::End(x) => N as i128 + x as i128,
+        };
+        kani::assume(np >= 0 && np <= N as i128);
+        self.pos = np as usize;
+        Ok(np as u64)
+    }
 }
